@@ -12,7 +12,8 @@ import c10 as W
 
 PROP = "C11"
 THEOREMS = ["commit_markers_unchained_refuted", "commit_removal_refuted", "commit_duplicate_refuted",
-            "commit_swap_refuted"]
+            "commit_swap_refuted", "record_damage", "payload_damage_detected", "digest_damage_rejected",
+            "interior_frame_deletion_rejected", "duplicated_frame_rejected"]
 ZERO_LENS = [1, 2, 4, 8, 16, 32, 64]
 
 
@@ -268,3 +269,26 @@ def api_model(r, tier, cases, lines):
         if s != res:
             differing += 1; msgs.append(f"api edit {name}: impl={res} model={s} on `{c}`")
     return checked, differing, msgs
+
+
+# Not registered yet (the coordinator renames this to MANIFEST once `./check C11` exits 0, i.e. after finding F7 -
+# signatures wal:commit-marker-removed-accepted / -duplicated-accepted / wal:commit-markers-reordered-accepted -
+# is fixed in /repo or listed in known_findings.jsonl).
+MANIFEST_PENDING = {
+    "category": "proof",
+    "text": ("Coq theorems (no axioms, hash universally quantified) over the byte-level WAL model shared with C10: damage "
+             "confined to one disk record leaves earlier records intact and yields an error, a torn-tail prefix, or the explicit "
+             "hash event (the reader's digest check passing on bytes that are not the original record); payload/kind damage "
+             "with intact length and digest is rejected or exhibits a collision; digest damage is always rejected. The "
+             "structural part of the property is REFUTED on the faithful model, universally: on the frames of any valid log "
+             "every selection of its commit markers (removed, duplicated, reordered) is accepted. Tie: the model is run "
+             "(vm_compute, real blake3 digests as a table) on the same flipped / zeroed / edited real bytes and compared "
+             "with recover_wal_segment_bytes / recover_filesystem_store / recover_from_frames_and_commits; the harness "
+             "checks the property itself (typed error or a prefix of the committed history) under every bit flip and aligned "
+             "zeroed range, every single-record delete/duplicate/append/swap/exchange/transplant at the bytes, filesystem-"
+             "store, store-writer and TrustedRuntimeHost layers, and ledger / manifest tampering."),
+    "note": ("Trusted: Coq kernel + vm_compute; props/c10.py + props/c11.py; harness c10.rs (c11 = same source); blake3 crate. "
+             "Modelled rather than verified: see C10. Not modelled (exercised by the oracle only): host semantic re-validation "
+             "of recovered payloads, writer-epoch ledger and manifest codecs. frame-level edits (delete/duplicate/re-seal) are "
+             "checked exhaustively on the implementation and by correspondence, not by a theorem."),
+}
